@@ -1,37 +1,42 @@
 """C25 -- Requested network re-probes are never silently dropped (DESIGN.md §6 C25, Appendix A.2).
 
 Spec: specs/socket/DirectAddrUpdate.tla -- the socket Actor (ScheduleRun = re_stun/schedule_run,
-OnDone = done signal -> try_run), the net reporter lock, want_update and the spawned run task split
-as the code is (Probe, then SendDone/Unlock in the pinned order or Unlock/SendDone in the order the
-property needs).  TLC: with the guard released first AtMostOneRun, NoStuckWant and want ~> ~want
-(weak fairness, no further requests) hold; with the pinned order NoStuckWant is refuted by
-req; req; probe; send_done; on_done; unlock.
+OnDone = a done signal taken from the channel -> try_run; `doneq` = signals still pending in the
+channel), the net reporter lock, want_update and the spawned run task (Probe, then Unlock/SendDone
+as the property needs and the code now does, or SendDone/Unlock as the code was pinned).
+TLC: with the guard released first AtMostOneRun, NoStuckWant, OwedIsQueued, NoLostRequest and
+want ~> ~want / owed ~> ~owed (weak fairness, no further requests) hold.  Two named deviations are
+refuted on the model:
+  * UnlockFirst = FALSE (done signal before the guard is dropped): NoStuckWant, by
+    req; req; probe; send_done; on_done; unlock;
+  * ClearOnHeld = TRUE (try_run clears want_update when it finds the lock held): NoLostRequest, by
+    req; probe; unlock; req; req; probe; send_done; on_done(stale: lock held by the newer run, the
+    queued request is wiped); unlock; send_done; on_done -- nothing starts.
 
 Binding mode C, end to end: a real Endpoint whose relay map points at a local test relay
-(iroh::test_utils::run_relay_server, real net reports of ~250 ms); update requests are made with
-the public Endpoint::insert_relay(url, same config) (reaches re_stun(RelayMapChange)); cfg-guarded
-pause points (before and after `run_done.send` in the run task, before `try_run` in the Actor's
-done-signal branch) let the harness (vh_netrep c25) drive the endpoint along every word TLC
-enumerates for the pinned structure; the hook events c25.* (schedule/try_run carry the code's own
-view of lock and want_update) and the release of the lock (observed through the strong count of
-the Arc behind the owned guard) are recorded in the order in which they happened, followed by a
-`quiescent` observation after a settle time without stimulus.  TLC validates every recorded trace
-against Trace_DirectAddrUpdate.tla (either order of the task's last steps is explainable) and
-evaluates AtMostOneRun and NoStuckWant on every reconstructed state.
+(iroh::test_utils::run_relay_server, real net reports); update requests are made with the public
+Endpoint::insert_relay(url, same config) (reaches re_stun(RelayMapChange)); cfg-guarded pause
+points (before and after `run_done.send` in the run task, before `try_run` in the Actor's
+done-signal branch) let the harness (vh_netrep c25) drive the endpoint along the words TLC
+enumerates: every complete word with <= 2 requests and, of the longer ones, the family in which a
+done signal is handled while a newer run holds the lock and an update is queued behind it (the
+signal of run N is held back -- the task waits before its send, or the Actor before try_run --
+while run N+1 is started directly and a further request is queued).  The hook events c25.*
+(schedule/try_run carry the code's own view of lock and want_update) and the release of the lock
+(observed through the strong count of the Arc behind the owned guard) are recorded in the order in
+which they happened, followed by a `quiescent` observation after a settle time without stimulus.
+TLC validates every recorded trace against Trace_DirectAddrUpdate.tla (either order of the task's
+last steps is explainable; a try_run that sees no queued update although the model has one is the
+deviation action TLostWant) and evaluates AtMostOneRun, NoStuckWant and NoLostWant on every
+reconstructed state.
 
-Genuine defect found on the pinned tree: known_findings.d/C25.json (C25_done_before_unlock),
-proposed_fixes/C25.diff.
-
-Fix check (2026-09-22): with proposed_fixes/C25.diff applied (drop(net_reporter) before the done
-signal) the steps of a word that the repaired order makes impossible are skipped, all 23 quick
-traces are accepted, no invariant is violated, no KNOWN-FINDING line.
-
-Mutation self-test (2026-09-22, pinned tree): in schedule_run's busy branch
-`let _ = self.want_update.insert(why);` replaced by `let _ = why;` (a request made during a run is
-forgotten outright) -> exit 1, `VIOLATION ... NoLostWant is false after event 6 (try_run)` (the
-code's try_run reports want_update empty although the model has an update queued), next to the
-KNOWN-FINDING of the pinned defect; undone -> exit 0.  ("(after the fix) done sent before the
-guard drops", DESIGN §12, is the pinned code itself.)
+History: the pinned tree had the first deviation (found by this check, fixed in /repo 816d4e0).
+Seeded changes (bin/seedtest, 2026-09-22): seeded/_incoming/C25/patch.diff (try_run clears
+want_update on a held lock) -> rc=1, VIOLATION NoLostWant, schedule
+stale_done_signal_handled_while_newer_run_holds_lock, 2 runs observed where 3 are due;
+patch2.diff (done signal before the lock release again) -> rc=1, VIOLATION NoStuckWant;
+unchanged tree -> exit 0, no KNOWN-FINDING line.  Earlier mutation (schedule_run's busy branch
+forgets the request) -> VIOLATION NoLostWant.
 """
 import json
 import re
@@ -42,7 +47,7 @@ META = {
     "level": "model_checking",
     "engine": "socket-actor",
     "technique": "TLA+ spec DirectAddrUpdate model-checked by TLC (unlock-first design holds incl. liveness, pinned order "
-                 "refuted); every word forced end-to-end on a real Endpoint against a local relay with pause points; recorded "
+                 "and clear-on-held refuted); every word forced end-to-end on a real Endpoint against a local relay with pause points; recorded "
                  "event traces validated by TLC with the C25 invariants on the reconstructed states (mode C)",
     "text": "TLC checks on the model that when the run task releases the net reporter lock before signalling completion, at "
             "most one report runs at a time, no state exists in which an update is wanted while nothing runs and nothing is "
@@ -97,9 +102,10 @@ def run(ctx):
     outs = run_harness(ctx, words, "g")
     accepted = judge(ctx, words, outs, "g")
     binding_selftest(ctx, accepted)
-    ctx.cov["rule"] = ("every complete word of req/probe/send_done/on_done/unlock of the pinned structure with <= MaxReq update "
-                       "requests (exhaustive), each driven on a real endpoint; a word is non-trivial when a request is made "
-                       "while a run is in flight")
+    ctx.cov["rule"] = ("every complete word of req/probe/unlock/send_done/on_done of the unlock-first structure with <= 2 update "
+                       "requests, plus every 3-request word in which a done signal is handled while a newer run holds the lock and "
+                       "an update is queued (exhaustive for that family), each driven on a real endpoint; a word is non-trivial "
+                       "when a request is made while a run is in flight")
     ctx.cov["exhaustive"] = ctx.quick
     ctx.assume("no other source of update requests (link change, port mapping change, periodic timer) fires within a word; "
                "the relay server and the endpoint run on 127.0.0.1")
